@@ -71,3 +71,68 @@ package gabikeys
 //@   assert at os.OpenFile excl: !forceOverwrite ==> $1 == 194
 //@   assert at os.OpenFile trunc: forceOverwrite ==> $1 == 577
 //@   assert at Chmod mode: $1 == 384
+
+//@ # ---- key generation (C16): partial correctness of the selection of the prime pair and of the derived key material ----
+//@ func findMatch
+//@   property C16
+//@   safety
+//@   requires param != nil && p != nil && n != nil && pMod8 != nil && qMod8 != nil && forall i in 0..len(safeprimes) :: safeprimes[i] != nil
+//@   requires n != p && pMod8 != p && qMod8 != p && forall i in 0..len(safeprimes) :: safeprimes[i] != n && safeprimes[i] != pMod8 && safeprimes[i] != qMod8
+//@   ensures member: result != nil ==> exists i in 0..len(safeprimes) :: result == safeprimes[i]
+//@   ensures length: result != nil ==> bitlen(prod(val(p), val(result))) == param.Ln
+//@   ensures mod8: result != nil ==> rem(val(p), 8) != rem(val(result), 8)
+//@   modifies val(n), val(pMod8), val(qMod8)
+//@   loop 0 invariant 0 <= $i && $i <= len(safeprimes)
+
+//@ func generateSafePrimePair
+//@   property C16
+//@   safety
+//@   requires param != nil
+//@   ensures pair: err == nil ==> result0 != nil && result1 != nil && bitlen(prod(val(result0), val(result1))) == param.Ln && rem(val(result0), 8) != rem(val(result1), 8)
+//@   ensures halves: err == nil ==> rem(val(result0) / 2, 8) != 1 && rem(val(result1) / 2, 8) != 1
+//@   ensures fail: err != nil ==> result0 == nil && result1 == nil
+//@   ensures foreign: err == nil ==> !fresh(result0) && !fresh(result1) && val(result0) > 2 && val(result1) > 2
+//@   modifies nothing
+//@   received nonnil: $v != nil
+//@   received safeprime: val($v) > 2
+//@   loop 0 modifies elems(safeprimes), onlyfresh("BV")
+//@   loop 0 invariant fresh(safeprimes) && fresh(pPrime) && fresh(pPrimeMod8) && fresh(pMod8) && fresh(qMod8) && fresh(n) && forall i in 0..len(safeprimes) :: safeprimes[i] != nil && rem(val(safeprimes[i]) / 2, 8) != 1 && !fresh(safeprimes[i]) && val(safeprimes[i]) > 2
+
+//@ func (*PublicKey).RevocationSupported
+//@   property C16
+//@   inline
+//@ func (*PrivateKey).RevocationSupported
+//@   property C16
+//@   inline
+
+//@ func GenerateRevocationKeypair
+//@   property C16
+//@   safety
+//@   requires privk != nil && pubk != nil && pubk.N != nil && val(pubk.N) > 1
+//@   ensures ok: err == nil ==> privk.ECDSA != nil && pubk.ECDSA != nil && pubk.G != nil && pubk.H != nil && isqr(val(pubk.G), val(pubk.N)) && isqr(val(pubk.H), val(pubk.N))
+//@   ensures fail: err != nil ==> privk.ECDSA == old(privk.ECDSA) && pubk.ECDSA == old(pubk.ECDSA) && pubk.G == old(pubk.G) && pubk.H == old(pubk.H)
+//@   modifies privk.ECDSAString, privk.ECDSA, pubk.ECDSAString, pubk.ECDSA, pubk.G, pubk.H
+
+//@ # gen(z, s, n): z lies in the subgroup of Z_n^* generated by s; the only way to establish it is to exhibit z as a power of s
+//@ declare gen/3b
+//@ axiom genpow(s, x, n): gen(pow(s, x, n), s, n)
+//@ func GenerateKeyPair
+//@   property C16
+//@   safety
+//@   uses genpow
+//@   requires param != nil && numAttributes >= 0 && param.Ln >= 16 && param.Ln <= 65536
+//@   ensures primes: err == nil ==> result0 != nil && result1 != nil && result0.P != nil && result0.Q != nil && rem(val(result0.P), 8) != rem(val(result0.Q), 8) && rem(val(result0.P) / 2, 8) != 1 && rem(val(result0.Q) / 2, 8) != 1
+//@   ensures modulus: err == nil ==> result0.N != nil && result1.N == result0.N && val(result0.N) == prod(val(result0.P), val(result0.Q)) && bitlen(val(result0.N)) == param.Ln
+//@   ensures derived: err == nil ==> result0.PPrime != nil && result0.QPrime != nil && result0.Order != nil && val(result0.PPrime) == val(result0.P) / 2 && val(result0.QPrime) == val(result0.Q) / 2 && val(result0.Order) == prod(val(result0.PPrime), val(result0.QPrime))
+//@   ensures meta: err == nil ==> result1.Params == param && result0.Counter == counter && result1.Counter == counter
+//@   ensures s: err == nil ==> result1.S != nil && legendre(val(result1.S), val(result0.P)) == 1 && legendre(val(result1.S), val(result0.Q)) == 1 && 0 <= val(result1.S) && val(result1.S) <= val(result1.N)
+//@   ensures z: err == nil ==> result1.Z != nil && gen(val(result1.Z), val(result1.S), val(result1.N))
+//@   ensures bases: err == nil ==> len(result1.R) == numAttributes && forall i in 0..numAttributes :: result1.R[i] != nil && gen(val(result1.R[i]), val(result1.S), val(result1.N))
+//@   ensures revocation: err == nil ==> result1.G != nil && result1.H != nil && isqr(val(result1.G), val(result1.N)) && isqr(val(result1.H), val(result1.N)) && result0.ECDSA != nil && result1.ECDSA != nil
+//@   ensures fail: err != nil ==> result0 == nil && result1 == nil
+//@   loop 0 modifies onlyfresh("BV")
+//@   loop 1 modifies onlyfresh("BV")
+//@   loop 2 invariant 0 <= $i && $i < numAttributes && pubk != nil && fresh(pubk) && priv != nil && fresh(priv) && pubk.S != nil && pubk.N != nil && val(pubk.N) > 1 && len(pubk.R) == numAttributes && fresh(pubk.R) && forall j in 0..$i :: pubk.R[j] != nil && gen(val(pubk.R[j]), val(pubk.S), val(pubk.N))
+//@   loop 2 modifies elems(pubk.R), onlyfresh("BV")
+//@   loop 3 invariant pubk != nil && fresh(pubk) && priv != nil && fresh(priv) && pubk.S != nil && pubk.N != nil && val(pubk.N) > 1 && len(pubk.R) == numAttributes && fresh(pubk.R) && 0 <= i && i < numAttributes && pubk.R[i] != nil && fresh(pubk.R[i]) && forall j in 0..i :: pubk.R[j] != nil && gen(val(pubk.R[j]), val(pubk.S), val(pubk.N))
+//@   loop 3 modifies onlyfresh("BV")
